@@ -391,6 +391,14 @@ mod probes {
                     return Err(format!("tp={tp} fp={fp} fn={fn_} beta={beta}: {name} = {v} is not a finite value in [0,1]"));
                 }
             }
+            if tp > 0 {
+                // F-beta from the counts: (1 + b^2) tp / ((1 + b^2) tp + b^2 fn + fp)
+                let b2 = beta * beta;
+                let def = ((1.0 + b2) * tp as f64) / ((1.0 + b2) * tp as f64 + b2 * fn_ as f64 + fp as f64);
+                if (f1 - def).abs() > 1e-9 {
+                    return Err(format!("tp={tp} fp={fp} fn={fn_} beta={beta}: F-beta = {f1}, defining formula gives {def}"));
+                }
+            }
             if fp == 0 && fn_ == 0 && tp > 0 && (f1, prec, rec) != (1.0, 1.0, 1.0) {
                 return Err(format!("tp={tp} fp=0 fn=0: expected (1,1,1), got ({f1},{prec},{rec})"));
             }
